@@ -358,6 +358,13 @@ func (g G) drawStyle(label string) Style {
 	s.SelfClose = g.chance(label+".selfClose", 50)
 	s.EncodingP = g.intn(label+".encodingP", 2)
 	s.Chunked = g.chance(label+".chunked", 15)
+	if g.chance(label+".textForm", 35) {
+		s.TextForm = g.rng(label+".textFormK", 1, 4)
+	}
+	if g.chance(label+".b64Lines", 20) {
+		s.B64Lines = g.rng(label+".b64LinesK", 1, 2)
+	}
+	s.BodyAndURL = g.chance(label+".bodyAndURL", 15)
 	return s
 }
 
